@@ -113,7 +113,9 @@ class Hist:
                 steps.append(("call", setr))
             elif k == "forget":
                 steps.append(("call", (lambda e: (lambda sc: sc.cas[e].forget_account()))(op[1])))
-        eps = {e: {"ca": {"eab_keys": dict(self.eab_keys)}} for e in EPS}
+        order = self.meta.get("contact_order") or ("as_sent", "reversed", "sorted")[hash(self.tag) % 3 if False else (sum(map(ord, self.tag)) % 3)]
+        self.meta["contact_order"] = order
+        eps = {e: {"ca": {"eab_keys": dict(self.eab_keys), "contact_order": order}} for e in EPS}
         sp = dict(tag=self.tag, certs=[], endpoints=eps, accounts=[{"name": "acc1", "contacts": [{"mailto": "first@example.org"}]}],
                   steps=steps, meta=dict(self.meta, family=self.meta.get("family", "history")))
         sp["meta"]["flow"] = {}
@@ -142,13 +144,16 @@ def histories(tier, seed):
         [("renew", "A"), ("both", ["refused@example.org"], "ecdsa_p384"), ("refuse", "A", "invalidContact"), ("renew", "A"), ("renew", "A"), ("restart",), ("renew", "A")],
         [("renew", "A"), ("renew", "B"), ("both", c2, "rsa2048"), ("refuse", "B", "unsupportedContact"), ("renew", "B"), ("restart",), ("renew", "B"), ("renew", "A")],
         [("renew", "A"), ("contacts", c2), ("refuse", "A", "invalidContact"), ("renew", "A"), ("key", "ed25519"), ("renew", "A")],
+        # a contacts edit followed by renewals and restarts with nothing edited, the CA listing its contacts in an order of its own
+        [("renew", "A"), ("contacts", c2), ("renew", "A"), ("renew", "A"), ("restart",), ("renew", "A")],
+        [("renew", "A"), ("renew", "B"), ("contacts", ["z@example.org", "a@example.org", "m@example.org"]), ("renew", "A"), ("renew", "B"), ("renew", "A"), ("renew", "B")],
         # key types that share a signature algorithm
         [("key", "rsa2048"), ("renew", "A"), ("key", "rsa4096"), ("restart",), ("renew", "A"), ("both", c2, "rsa2048"), ("renew", "A")],
         # binding and contacts change together; the contacts update that follows the new registration is refused once
         [("renew", "A"), ("contacts", c2), ("eab", "kidA"), ("refuse", "A", "invalidContact"), ("renew", "A"), ("renew", "A"), ("restart",), ("renew", "A")],
     ]
     for i, ops in enumerate(fixed):
-        H.append(Hist("C11/f%02d" % i, ops, meta={"family": "fixed history"}))
+        H.append(Hist("C11/f%02d" % i, ops, meta={"family": "fixed history", "contact_order": ("reversed", "sorted", "as_sent")[i % 3]}))
     n = 150 if tier == "thorough" else 16
     alphabet = ["contacts", "key", "both", "eab", "restart", "renew", "renew", "forget", "refuse"]
     for i in range(n):
